@@ -30,6 +30,10 @@ def resolve(proj, rev, now):
             trid = "77" if proj["treq"] == 0 else str(proj["treq"])
         elif trid == "wrong":
             trid = "12345"
+        elif trid == "wronghi":
+            trid = str(proj["treq"] + 1)
+        elif trid == "wrongtxt":
+            trid = "abc"
         return {"t": "frame", "now": now,
                 "f": {"kind": r["kind"], "seq": seq, "pd": r["pd"], "gf": r["gf"], "newseq": newseq, "b": b, "e": e,
                       "trid": trid, "pay": ("11=p%d" % seq) if r["kind"] == "APP" else "", "text": False,
